@@ -57,11 +57,85 @@ theorem query_endpoint_rejects_writes (lv : Level) (db : Db) (t : Text) (n : Nat
 
 example : storeQuery .strong [7] [[.r, .w 1], [.w 2]] = ⟨[7], [true, true]⟩ := by decide
 
+/-! #### what the query clause rests on: the pragma guard (C15)
+`SqliteConn.queryOnly_refuses` is a law about a connection that IS in query_only mode. The pooled
+read-only connection stays in that mode only because no request may switch it off: that is the
+guard `db.IsBreakingPragma` in front of `Store.Query` / `Store.Request`, the subject of C15. The
+dependency is an explicit hypothesis here. -/
+
+/-- the property of the guard the query clause needs (proved about `IsBreakingPragma` by C15: a
+text holding a PRAGMA that switches query_only, in any spelling and anywhere in the text, is refused) -/
+def GuardBlocksQueryOnlyChanges (guard : Text → Bool) : Prop :=
+  ∀ t : Text, t.contains .qoff = true → guard t = true
+
+theorem queryTextRO_keeps (st : NodeSt) (t : Text) (hq : st.roQO = true) (hno : t.contains .qoff = false) :
+    (queryTextRO st t).1 = st := by
+  obtain ⟨db, qo⟩ := st
+  simp only at hq
+  subst hq
+  unfold queryTextRO
+  simp only [hno, Bool.false_eq_true, if_false]
+  cases hl : lastStmt t with
+  | none => rfl
+  | some s => cases s <;> simp [listConn]
+
+theorem queryTextsRO_keeps (st : NodeSt) (texts : List Text) (hq : st.roQO = true)
+    (hno : ∀ t ∈ texts, t.contains .qoff = false) : (queryTextsRO st texts).1 = st := by
+  induction texts generalizing st with
+  | nil => rfl
+  | cons t rest ih =>
+    unfold queryTextsRO
+    by_cases ht : t = []
+    · simp only [ht, if_true]; exact ih st hq (fun x hx => hno x (by simp [hx]))
+    · simp only [ht, if_false]
+      rw [queryTextRO_keeps st t hq (hno t (by simp))]
+      exact ih st hq (fun x hx => hno x (by simp [hx]))
+
+/-- With a guard that blocks every switch of query_only, NO sequence of query-path requests - texts
+with several statements, writes to the main database, writes through an ATTACHed alias of the
+node's own file - changes the database, and the pooled connection stays in query_only mode. -/
+theorem query_path_never_modifies_behind_guard (guard : Text → Bool) (hg : GuardBlocksQueryOnlyChanges guard)
+    (reqs : List (List Text)) (st : NodeSt) (hq : st.roQO = true) :
+    reqs.foldl (fun s texts => (storeQueryGuarded guard s texts).1) st = st := by
+  induction reqs generalizing st with
+  | nil => rfl
+  | cons texts rest ih =>
+    simp only [List.foldl_cons]
+    have : (storeQueryGuarded guard st texts).1 = st := by
+      unfold storeQueryGuarded
+      by_cases ha : texts.any guard = true
+      · simp [ha]
+      · simp only [ha, Bool.false_eq_true, if_false]
+        apply queryTextsRO_keeps st texts hq
+        intro t ht
+        cases hc : t.contains .qoff
+        · rfl
+        · exfalso
+          apply ha
+          rw [List.any_eq_true]
+          exact ⟨t, ht, hg t hc⟩
+    rw [this]
+    exact ih st hq
+
+/-- WITHOUT such a guard the clause is false: one request switches query_only off on the pooled
+connection, the next one writes to the node's own database through an ATTACHed alias - outside the
+log, on the query endpoint. (mode=ro does not cover attached databases.) -/
+theorem query_path_unguarded_witness :
+    ([[[Stmt.qoff]], [[Stmt.r, Stmt.wa 1]]].foldl
+      (fun s texts => (storeQueryGuarded (fun _ => false) s texts).1) ({} : NodeSt)) = ⟨[1], false⟩ := by
+  decide
+
+/-- the guard the driver runs with satisfies the hypothesis; a guarded request is refused as a whole -/
+example : GuardBlocksQueryOnlyChanges (fun t => t.contains .qoff) := fun _ h => h
+
+example : storeQueryGuarded (fun t => t.contains .qoff) {} [[.r], [.qoff, .wa 1]] = ({}, none) := by decide
+
 /-! ### the unified endpoint -/
 
 def writesOf : Text → List Nat
   | [] => []
   | .w n :: rest => n :: writesOf rest
+  | .wa n :: rest => n :: writesOf rest
   | _ :: rest => writesOf rest
 
 /-- the effect tokens of the texts the request does NOT treat as read-only -/
@@ -78,7 +152,8 @@ def request_readonly_texts_change_nothing_full : Prop :=
 /-- the recorded failing inputs: a text whose FIRST statement is read-only (so the whole text is
 treated as read-only) and whose LAST statement is a write -/
 def readOnlyHeadWritingTail (t : Text) : Bool :=
-  classify t == some true && (match lastStmt t with | some (.w _) => true | _ => false)
+  classify t == some true &&
+    (match lastStmt t with | some (.w _) => true | some (.wa _) => true | _ => false)
 
 theorem runRWexec_eq (db : Db) (t : Text) : runRWexec db t = db ++ writesOf t := by
   induction t generalizing db with
